@@ -15,6 +15,7 @@ func parserFamily(c *Ctx, kind string) []*family.Grammar {
 		size, nTerm, nOutlineSrc = 4, 1000, 120
 	}
 	var gs []*family.Grammar
+	gs = append(gs, family.Long()...) // first: their jobs are the longest
 	gs = append(gs, family.Shapes()...)
 	gs = append(gs, family.EndLookahead()...)
 	basis := family.Dedup(family.Basis(size))
@@ -96,6 +97,41 @@ func nFor(c *Ctx, gg *GenGrammar, n int) int {
 	return n
 }
 
+// longCases lists (length, hole, hole) for a grammar of the long-input layer: lengths around
+// 2^8 (both tiers) and up to 2^16 (thorough, grammars whose token count does not grow), each with
+// no hole, holes at both ends, at the last two runes, and in the middle.
+func longCases(c *Ctx, g *family.Grammar, limit int) [][3]int {
+	ls := []int{17, 255, 256}
+	if !c.Quick() {
+		ls = []int{17, 33, 64, 254, 255, 256, 257, 300, 1000}
+		if g.Flat {
+			ls = append(ls, 65535, 65536)
+		}
+	}
+	var out [][3]int
+	for _, l := range ls {
+		if l > g.LongMax || (limit > 0 && l > limit) {
+			continue
+		}
+		out = append(out, [3]int{l, -1, -1}, [3]int{l, 0, l - 1}, [3]int{l, l - 2, l - 1}, [3]int{l, l / 2, l/2 + 1})
+	}
+	return out
+}
+
+// longJobs: entry twin `<entry>L(h1, h2, n, tail...)` on every long case.
+func longJobs(c *Ctx, gg *GenGrammar, entry string, limit int, tail ...int) []*Job {
+	var jobs []*Job
+	for _, lc := range longCases(c, gg.G, limit) {
+		args := append([]int{lc[1], lc[2], lc[0]}, tail...)
+		jobs = append(jobs, &Job{Entry: entry + "L", Args: args, MaxSteps: 2_000_000 + 20_000*lc[0]})
+	}
+	return jobs
+}
+
+func stdLong(c *Ctx, entry string, limit int, tail ...int) func(gg *GenGrammar) []*Job {
+	return func(gg *GenGrammar) []*Job { return longJobs(c, gg, entry, limit, tail...) }
+}
+
 func lenJobs(entry string, maxN int, extra ...int) []*Job {
 	var jobs []*Job
 	for n := 0; n <= maxN; n++ {
@@ -107,6 +143,7 @@ func lenJobs(entry string, maxN int, extra ...int) []*Job {
 func stdBounds(c *Ctx, n int) {
 	c.Bounds["input_length_note"] = "one rune more (N+1) on the curated shapes and the end-of-input lookahead layer (both tiers) and, in the thorough tier, on grammars with <= 3 terminal classes"
 	c.Bounds["input_length"] = fmt.Sprintf("all lengths 0..%d runes; each rune any Unicode scalar value (0..0x10FFFF minus surrogates), i.e. every Go string whose decoding has that many runes", n)
+	c.Bounds["long_inputs"] = "long-input layer (10 loop/recursion grammars): lengths 17, 255, 256 (quick) and 17..1000, and 65535/65536 for grammars with a constant number of tokens (thorough); all runes a concrete filler cycle except two arbitrary runes at the ends / last two / middle positions"
 	c.Bounds["outside"] = "longer inputs; grammars outside the enumerated family; semantic predicates with side effects"
 	c.Assumptions = append(c.Assumptions, stdAssumptions...)
 }
@@ -144,6 +181,7 @@ func init() {
 				}
 				return jobs
 			},
+			LongJobs:          stdLong(c, "C01", 0, 0),
 			BrokenIsViolation: true, ValidateEveryGrammar: validateEvery(c), Cfg: parserCfg(c),
 		}
 	}
@@ -156,6 +194,7 @@ func init() {
 				return []EntrySpec{{Name: "C03", Params: "n, rule int", Body: "hl.C03(G, vd.New, n, rule, NSW)"}}
 			},
 			Jobs:              func(gg *GenGrammar) []*Job { return lenJobs("C03", nFor(c, gg, N), 0) },
+			LongJobs:          stdLong(c, "C03", 0, 0),
 			BrokenIsViolation: true, ValidateEveryGrammar: validateEvery(c), Cfg: parserCfg(c),
 		}
 	}
@@ -186,6 +225,7 @@ func init() {
 				}
 				return jobs
 			},
+			LongJobs:          stdLong(c, "C02", 1000),
 			BrokenIsViolation: true, ValidateEveryGrammar: validateEvery(c), Cfg: parserCfg(c),
 		}
 	}
@@ -198,6 +238,7 @@ func init() {
 				return []EntrySpec{{Name: "C04", Params: "n int", Body: "hl.C04(G, vd.New, n, NSW)"}}
 			},
 			Jobs:              func(gg *GenGrammar) []*Job { return lenJobs("C04", nFor(c, gg, N)) },
+			LongJobs:          stdLong(c, "C04", 1000),
 			BrokenIsViolation: true, ValidateEveryGrammar: validateEvery(c), Cfg: parserCfg(c),
 		}
 	}
@@ -225,6 +266,7 @@ func init() {
 				}
 				return jobs
 			},
+			LongJobs:          stdLong(c, "C05", 300),
 			BrokenIsViolation: true, ValidateEveryGrammar: validateEvery(c), Cfg: parserCfg(c),
 		}
 	}
@@ -237,6 +279,7 @@ func init() {
 				return []EntrySpec{{Name: "C06", Params: "n int", Body: "hl.C06(G, vd.New, n, NSW)"}}
 			},
 			Jobs:              func(gg *GenGrammar) []*Job { return lenJobs("C06", nFor(c, gg, N)) },
+			LongJobs:          stdLong(c, "C06", 0),
 			BrokenIsViolation: true, ValidateEveryGrammar: validateEvery(c), Cfg: parserCfg(c),
 		}
 	}
@@ -261,6 +304,7 @@ func init() {
 				return []EntrySpec{{Name: "C07", Params: "n int", Body: fmt.Sprintf("hl.C07(G, vd.New, %s, %s, []bool{%s}, n, NSW)", names, ctors, strings.Join(ex, ", "))}}
 			},
 			Jobs:              func(gg *GenGrammar) []*Job { return lenJobs("C07", nFor(c, gg, N)) },
+			LongJobs:          stdLong(c, "C07", 1000),
 			BrokenIsViolation: true, ValidateEveryGrammar: validateEvery(c), Cfg: parserCfg(c),
 		}
 	}
@@ -284,6 +328,7 @@ func init() {
 				}
 				return jobs
 			},
+			LongJobs:          stdLong(c, "C11", 1000),
 			BrokenIsViolation: true, ValidateEveryGrammar: validateEvery(c), Cfg: parserCfg(c),
 		}
 	}
@@ -305,6 +350,7 @@ func init() {
 				return []EntrySpec{{Name: "C13", Params: "n int", Body: fmt.Sprintf("hl.C13(G, %s, %s, []bool{%s}, HASACT, n, NSW)", names, ctors, strings.Join(ast, ", "))}}
 			},
 			Jobs:              func(gg *GenGrammar) []*Job { return lenJobs("C13", nFor(c, gg, N)) },
+			LongJobs:          stdLong(c, "C13", 0),
 			BrokenIsViolation: false, ValidateEveryGrammar: validateEvery(c), Cfg: parserCfg(c),
 		}
 	}
